@@ -186,6 +186,9 @@ func runC07(c *ctx) {
 			}
 		}
 		n := c.n(480, 4000)
+		if n > 4000 {
+			n = 4000 // the failing-input search widens by -scale; keep a run within minutes
+		}
 		for i := 0; i < n; i++ {
 			nc := c.rng.Bool()
 			hasOp := c.rng.Chance(1, 2)
@@ -406,7 +409,7 @@ func runC07(c *ctx) {
 	if hooksMissing {
 		res.Fail("machinery", "", "the scrapligo tree has no `verif` yield hooks (util.VerifYield): forced schedules could not be run, only natural-timing scenarios", "verif-hooks-missing")
 	}
-	res.Note("distinct model states visited by validated traces: %d (of 138560 reachable)", len(states))
+	res.Note("distinct model states visited by validated traces: %d (of 139484 reachable)", len(states))
 	if len(obs) > 0 {
 		for _, o := range obs {
 			if o.spec.Natural == "" && len(o.events) > 0 {
